@@ -1277,9 +1277,59 @@ def generator_under_interleaving(ctx: Ctx) -> None:
     ctx.notes["generator_interleavings"] = runs
 
 
+def records_of_one_workflow_written_concurrently(ctx: Ctx) -> None:
+    """a body and a sub-task of the SAME workflow run in two threads of one runner and both record something (a launch record here, a
+    drawn value there): one thread is paused after each source line of `set_workflow_data` (SQL statement on SQLite) while the other
+    runs to completion, both ways round, on a workflow that has records already and on a fresh one.  Both records must be there:
+    a lost launch record is a second launch at the next execution."""
+    import uuid as _uuid
+
+    from pynenc.identifiers.task_id import TaskId
+    from pynenc.state_backend.mem_state_backend import MemStateBackend
+    from pynenc.workflow.workflow_identity import WorkflowIdentity
+
+    from harness.props.c02 import SQL_PATCH
+    from harness.sched_line import LineSched
+    from harness.sched_sql import PrefixChooser, SqlSched
+
+    tid = TaskId("harness.tasks", "wf_script")
+    runs = 0
+    for backend in ("mem", "sqlite"):
+        sched = (LineSched(line_targets=[MemStateBackend.set_workflow_data], max_steps=5000) if backend == "mem" else SqlSched(patch=SQL_PATCH, max_steps=5000)).install()
+        try:
+            for fresh in (False, True):
+                def run_one(chooser, fresh=fresh):
+                    app = make_app(backend, ctx.tmp, f"c18rec{backend}{ctx.rng.randrange(10**7)}")
+                    sb = app.state_backend
+                    w = WorkflowIdentity.new_workflow(str(_uuid.UUID(int=ctx.rng.getrandbits(128))), tid)
+                    if not fresh:
+                        sb.set_workflow_data(w, "counter:random", 1)
+                    bodies = [lambda: sb.set_workflow_data(w, "task_invocation:call-1", "inv-1"), lambda: sb.set_workflow_data(w, "uuid:1", "u-1")]
+                    run = sched.run(bodies, chooser)
+                    run.meta = (sb.get_workflow_data(w, "task_invocation:call-1", None), sb.get_workflow_data(w, "uuid:1", None))  # type: ignore[attr-defined]
+                    return run
+
+                for first in (0, 1):
+                    steps = len(run_one(PrefixChooser([first] * 5000)).choices)
+                    for k in range(steps + 1):
+                        run = run_one(PrefixChooser([first] * k + [1 - first] * 5000))
+                        runs += 1
+                        ctx.count()
+                        ctx.distinct(("records-concurrently", backend, fresh, first, k))
+                        if run.meta != ("inv-1", "u-1") or run.aborted or any(e is not None for e in run.errors):  # type: ignore[attr-defined]
+                            ctx.report(f"workflow-record-lost[{backend}]:{'fresh' if fresh else 'existing'}-workflow",
+                                       f"[{backend}] two threads record `task_invocation:call-1` and `uuid:1` for one workflow ({'no records yet' if fresh else 'records exist'}); thread {first} "
+                                       f"paused after step {k}: afterwards the records read {run.meta} (errors {run.errors})",  # type: ignore[attr-defined]
+                                       {"family": "records-concurrently", "backend": backend, "fresh": fresh, "paused_thread": first, "after_steps": k})
+        finally:
+            sched.uninstall()
+    ctx.notes["record_writer_interleavings"] = runs
+
+
 def run(ctx: Ctx) -> None:
     lean_stage(ctx, None, THEOREMS)
     generator_across_processes(ctx)
+    records_of_one_workflow_written_concurrently(ctx)
     generator_under_interleaving(ctx)
     clock_ok = P.install_clock()
     ctx.notes["clock_patch"] = clock_ok
